@@ -10,7 +10,6 @@ NOT_APPLICABLE = {
     'C01': 'sample-exact equality of two long arithmetic pipelines over runtime samples; no code-shape clause decides it (C25/C06/C07 cover necessary table/dispatch conditions)',
     'C08': 'equality of decoded samples with reference decoders is a value-level property of ~60 kLOC of arithmetic; nothing structural to decide',
     'C11': 'memory safety / termination of the whole encoder for all contents and sizes; no sound static bound on ~150 kLOC of kernels is in reach (init/config-time slices are claimed under C14, C16)',
-    'C19': 'key-frame placement is modular counter arithmetic across mini-GOP boundaries and decode-from-keyframe equality is value-level; not a shape property',
 }
 PENDING = 'static check designed (DESIGN.md section 5) but not implemented in this revision; not claimed'
 
